@@ -3,9 +3,9 @@ package main
 // C09: methods, embedding, interfaces, type switches — the structural clauses of the lookup and dispatch code.
 
 import (
-	"go/constant"
 	"fmt"
 	"go/ast"
+	"go/constant"
 	"go/token"
 	"go/types"
 	"strings"
